@@ -27,7 +27,7 @@ type c04Op struct {
 	Kind string   `json:"kind"`           // write | snap | load | boot | install | reap | restart
 	Keys []int    `json:"keys,omitempty"` // write: keys touched
 	Val  int      `json:"val,omitempty"`  // write: value (0 = delete)
-	Out  string   `json:"out,omitempty"`  // snap: ok | notinvoked | failbefore | failafter | blocked (checkpoint blocked by a reader)
+	Out  string   `json:"out,omitempty"`  // snap: ok | notinvoked | failbefore | failafter | blocked (a reader is stalled, Keys/Val are written, then the attempt: the checkpoint is busy)
 	Data []int    `json:"data,omitempty"` // load/boot/install: cells of the incoming database
 	Wal  bool     `json:"wal,omitempty"`  // load/boot: the incoming file is in WAL journal mode
 	Segs []c04Seg `json:"segs,omitempty"` // install: the sender's un-reaped incremental snapshots on top of Data (each one write batch)
@@ -82,7 +82,8 @@ type c04Run struct {
 	scratch string
 	entries []c04Entry
 	ndonor  int
-	spec    []int // reference: the applied state by the property text (write = upsert, load/boot/install = replace)
+	release func() // ends the stalled read started by a "stallwrite" step
+	spec    []int  // reference: the applied state by the property text (write = upsert, load/boot/install = replace)
 }
 
 func (r *c04Run) project(idx uint64) int {
@@ -98,7 +99,14 @@ func (r *c04Run) project(idx uint64) int {
 func (r *c04Run) step(op c04Op) (res int, err error) {
 	s := r.n.s
 	switch op.Kind {
-	case "write":
+	case "write", "stallwrite":
+		if op.Kind == "stallwrite" {
+			rel, err := vsStallReader(s)
+			if err != nil {
+				return 2, err
+			}
+			r.release = rel
+		}
 		stmts := vsCellStmts(op.Keys, op.Val)
 		idx, err := r.n.exec(stmts)
 		if err != nil {
@@ -111,12 +119,18 @@ func (r *c04Run) step(op c04Op) (res int, err error) {
 	case "snap":
 		switch op.Out {
 		case "blocked":
-			release, err := vsStallReader(s)
-			if err != nil {
-				return 2, err
+			// the read was started before the preceding write ("stallwrite"), so it is not at the end of the WAL:
+			// neither the TRUNCATE checkpoint of a full snapshot nor the one of an incremental snapshot can finish
+			if r.release == nil {
+				rel, err := vsStallReader(s)
+				if err != nil {
+					return 2, err
+				}
+				r.release = rel
 			}
-			err = s.Snapshot(0)
-			release()
+			err := s.Snapshot(0)
+			r.release()
+			r.release = nil
 			switch {
 			case err == nil:
 				return 4, fmt.Errorf("the reader did not block the checkpoint")
@@ -345,7 +359,7 @@ func c04Eq(a, b []int) bool {
 
 func c04CoqOp(op c04Op) string {
 	switch op.Kind {
-	case "write":
+	case "write", "stallwrite":
 		return fmt.Sprintf("(OWrite %s %s)", vsCoqNList(op.Keys), coqN(uint64(op.Val)))
 	case "snap":
 		return "(OSnap " + map[string]string{"ok": "POk", "notinvoked": "PNotInvoked", "failbefore": "PFailBefore", "failafter": "PFailAfter", "blocked": "PBlocked"}[op.Out] + ")"
@@ -409,6 +423,20 @@ func c04Nontrivial(obs []c04Obs, ops []c04Op) bool {
 	return false
 }
 
+// a blocked snapshot attempt that carries a write is two steps of the model: the write (made while a reader is
+// already stalled) and the attempt
+func c04Expand(ops []c04Op) []c04Op {
+	var out []c04Op
+	for _, op := range ops {
+		if op.Kind == "snap" && op.Out == "blocked" && len(op.Keys) > 0 {
+			out = append(out, c04Op{Kind: "stallwrite", Keys: op.Keys, Val: op.Val}, c04Op{Kind: "snap", Out: "blocked"})
+			continue
+		}
+		out = append(out, op)
+	}
+	return out
+}
+
 func c04RunCase(in c04Input, base string, seq int) VCase {
 	dir := filepath.Join(base, fmt.Sprintf("n%d", seq))
 	scratch := filepath.Join(base, fmt.Sprintf("s%d", seq))
@@ -433,12 +461,21 @@ func c04RunCase(in c04Input, base string, seq int) VCase {
 	var obs []c04Obs
 	fail, sig := "", ""
 	tags := map[string]bool{}
-	for i, op := range in.Ops {
+	ops := c04Expand(in.Ops)
+	defer func() {
+		if r.release != nil {
+			r.release()
+		}
+	}()
+	for i, op := range ops {
 		res, err := r.step(op)
 		if res == 4 {
 			return VCase{Input: in, Key: key, Inconcl: fmt.Sprintf("step %d (%s): %v", i, op.Kind, err)}
 		}
 		if res == 2 {
+			if fail != "" { // the property was already seen to fail at an earlier step: that is the finding
+				return VCase{Input: in, Key: key, OracleFail: fail + fmt.Sprintf(" (then step %d (%s) failed: %v)", i, op.Kind, err), Sig: sig}
+			}
 			return VCase{Input: in, Key: key, OracleFail: fmt.Sprintf("step %d (%s) failed: %v", i, op.Kind, err), Sig: "C04:step-error:" + op.Kind}
 		}
 		o, note := r.observe(res)
@@ -458,8 +495,8 @@ func c04RunCase(in c04Input, base string, seq int) VCase {
 			}
 		}
 	}
-	coqOps := make([]string, len(in.Ops))
-	for i, op := range in.Ops {
+	coqOps := make([]string, len(ops))
+	for i, op := range ops {
 		coqOps[i] = c04CoqOp(op)
 	}
 	coqObs := make([]string, len(obs))
@@ -467,7 +504,7 @@ func c04RunCase(in c04Input, base string, seq int) VCase {
 		coqObs[i] = c04CoqObs(o)
 	}
 	c := VCase{Input: in, Key: key, Coq: fmt.Sprintf("{| c_ops := %s; c_obs := %s |}", coqList(coqOps), coqList(coqObs)),
-		Nontrivial: c04Nontrivial(obs, in.Ops)}
+		Nontrivial: c04Nontrivial(obs, ops)}
 	for t := range tags {
 		c.Tags = append(c.Tags, t)
 	}
@@ -531,11 +568,9 @@ func c04RandKeys(rng *rand.Rand) []int {
 func c04Gen(rng *rand.Rand, maxOps int) c04Input {
 	var ops []c04Op
 	val := 1
-	cur := make([]int, vsKeys)          // the applied state, so that a delete always removes something
-	fullDue, wroteSince := false, false // a load made a full snapshot due / a write followed it
+	cur := make([]int, vsKeys) // the applied state, so that a delete always removes something
 	w := func() c04Op {
 		val++
-		wroteSince = true
 		ks := c04RandKeys(rng)
 		if rng.Intn(8) == 0 {
 			var present []int
@@ -569,30 +604,28 @@ func c04Gen(rng *rand.Rand, maxOps int) c04Input {
 			ops = append(ops, w())
 		case x < 13:
 			o := outs[rng.Intn(len(outs))]
-			if fullDue && wroteSince && rng.Intn(3) == 0 {
-				o = "blocked" // a reader blocks the full snapshot's checkpoint: fsmSnapshot itself fails
-			}
-			if o == "ok" {
-				fullDue = false
-			}
-			if o != "blocked" {
-				wroteSince = false // every other attempt checkpoints the WAL: a reader then has nothing to block
+			if rng.Intn(5) == 0 {
+				// a reader is stalled, a batch (mostly other rows than the batches before) is written, then the attempt:
+				// the checkpoint is busy whether the snapshot is full or incremental, whatever is already staged
+				bw := w()
+				for bw.Val == 0 {
+					bw = w()
+				}
+				ops = append(ops, c04Op{Kind: "snap", Out: "blocked", Keys: bw.Keys, Val: bw.Val})
+				continue
 			}
 			ops = append(ops, c04Op{Kind: "snap", Out: o})
 		case x < 14:
 			val += 10
 			copy(cur, c04RandCells(rng, val))
-			fullDue, wroteSince = true, false
 			ops = append(ops, c04Op{Kind: "load", Data: append([]int{}, cur...), Wal: rng.Intn(2) == 0})
 		case x < 15:
 			val += 10
 			copy(cur, c04RandCells(rng, val))
-			fullDue = false
 			ops = append(ops, c04Op{Kind: "boot", Data: append([]int{}, cur...), Wal: rng.Intn(2) == 0})
 		case x < 17:
 			val += 10
 			copy(cur, c04RandCells(rng, val))
-			fullDue = false
 			op := c04Op{Kind: "install", Data: append([]int{}, cur...)}
 			for k := rng.Intn(4); k > 0; k-- { // the sender's chain: full + 0..3 un-reaped incrementals
 				val++
@@ -671,6 +704,21 @@ func c04Corpus() []c04Input {
 		c04Input{Ops: []c04Op{W(1, 3, 9), S("ok"), {Kind: "install", Data: all(1), Segs: []c04Seg{G(1, 10, 2), G(6, 16, 3)}}, {Kind: "reap"}, W(2, 12, 5), S("ok"), {Kind: "restart"}, W(3, 9, 6), S("notinvoked"), W(4, 5, 7), S("ok"), {Kind: "reap"}}},
 		c04Input{Ops: []c04Op{{Kind: "install", Data: all(1), Segs: []c04Seg{G(1, 24, 2)}}, W(1, 24, 3), S("failbefore"), W(1, 12, 4), S("ok"), {Kind: "install", Data: all(5), Segs: []c04Seg{G(3, 9, 6), G(5, 14, 7), G(1, 6, 8)}}, W(4, 10, 9), S("ok"), {Kind: "reap"}, {Kind: "restart"}}},
 	)
+	// a busy checkpoint on the INCREMENTAL path while segments staged by earlier unpersisted attempts are present:
+	// the failed attempt must leave the staging directory as it was (nothing new, nothing old removed); every batch
+	// touches different rows, so a lost segment shows in the rebuilt database
+	B := func(a, b, v int) c04Op { return c04Op{Kind: "snap", Out: "blocked", Keys: keys(a, b), Val: v} }
+	for _, unpersisted := range [][]c04Op{
+		{W(5, 8, 2), S("notinvoked")},
+		{W(5, 8, 2), S("failbefore")},
+		{W(5, 6, 2), S("notinvoked"), W(7, 8, 3), S("failbefore")},
+		{},
+	} {
+		ops := []c04Op{W(1, 4, 1), S("ok")}
+		ops = append(ops, unpersisted...)
+		ops = append(ops, B(9, 12, 4), W(13, 16, 5), S("ok"), c04Op{Kind: "restart"}, B(17, 20, 6), B(21, 22, 7), S("notinvoked"), B(23, 24, 8), W(1, 2, 9), S("ok"), c04Op{Kind: "reap"})
+		out = append(out, c04Input{Ops: ops})
+	}
 	// snapshot attempts that fail (each refreshes the in-memory "database file modified" time) between a load
 	// and the next successful snapshot: only the durable FULL_NEEDED flag still says that a full one is due
 	for _, failing := range [][]c04Op{{S("notinvoked")}, {S("blocked")}, {S("failbefore")}, {S("blocked"), S("notinvoked")}} {
